@@ -8,6 +8,8 @@ import (
 	"github.com/refraction-networking/uquic/internal/protocol"
 )
 
+// maxSkippedPackets is the number of skipped packet numbers that are always remembered.
+// Skipped packet numbers that are not smaller than the lowest tracked packet number are remembered in addition.
 const maxSkippedPackets = 4
 
 type sentPacketHistory struct {
@@ -52,7 +54,10 @@ func (h *sentPacketHistory) SkippedPacket(pn protocol.PacketNumber) {
 	if len(h.packets) > 0 {
 		h.packets = append(h.packets, nil)
 	}
-	if len(h.skippedPackets) == maxSkippedPackets {
+	// Garbage collect old skipped packet numbers, but never forget one that is not smaller than
+	// the lowest packet number still tracked: an ACK for it must be detected (see detectAndRemoveAckedPackets).
+	for len(h.skippedPackets) >= maxSkippedPackets &&
+		(len(h.packets) == 0 || h.skippedPackets[0] < h.firstPacketNumber) {
 		h.skippedPackets = slices.Delete(h.skippedPackets, 0, 1)
 	}
 	h.skippedPackets = append(h.skippedPackets, pn)
